@@ -2,7 +2,7 @@
 into the evidence file. The checks themselves live in lean/Insim/Props/<ID>.lean (theorems),
 harness/src/<id>.rs (correspondence streams + implementation-side oracle) and translate/*.py."""
 
-TRANSLATORS = ["vehicle", "durations", "track", "codepages", "builder", "packets"]
+TRANSLATORS = ["vehicle", "durations", "track", "codepages", "builder", "packets", "files"]
 
 TRUSTED_COMMON = [
     "Lean 4.33.0 kernel; axioms allowed: propext, Classical.choice, Quot.sound (audited with #print axioms on every run); no sorry/admit/native_decide/bv_decide/own axioms (grep on every run)",
@@ -114,6 +114,20 @@ PROPS = {
         ],
         "rule": "gv.parse per string (characters given as code points with the real is_numeric flag), gv.print per successfully parsed finite version, gv.cmp per ordered pair of a pool of parsed versions; distinct = distinct op text",
         "assumptions": ["versions compared by Ord were obtained by parsing (non-negative, non-NaN numbers)", "revision numbers fit usize (anything larger is a parse error)"],
+    },
+    "C17": {
+        "level_text": "Lean theorems over the hand model of the PTH/SMX containers (magic, header with calc'ed i32 counts, counted vectors, negative count = error) instantiated with the leaf layouts (file headers, Node, Object header, ObjectPoint, Triangle, checkpoint count) regenerated from insim_pth/src/lib.rs and insim_smx/src/lib.rs on every run. For every byte string, any number of nodes/objects/points/triangles/checkpoints: the parsers have no panic outcome; parsing is insensitive to trailing bytes, hence every strict prefix of the declared content of any file that parses is rejected (both formats, including cuts inside the padding after a triangle); a count with the top bit set is an error; a successful parse never yields more elements than the input has bytes (huge counts need the bytes to be there); write->parse returns the value for every in-domain file; whatever parses can be written and parsing that gives the equal structure (NaN bit patterns included: floats are carried as their 32 bits); every PTH file, and every SMX file whose skipped pad bytes are zero and whose track name is cleanly NUL-padded, is reproduced byte for byte. The side conditions on the regenerated layouts (symmetric reader/writer pads, positive widths, one/two count fields, pad-free PTH) are decided by kernel evaluation on every run. Tied by correspondence on generated files with 0..n elements, every truncation point of valid files, hostile counts (negative, 2^31-1), flipped bytes and random byte strings; the oracle evaluates the statement on the real code, including from_pathbuf on temporary files and a counting allocator for the allocation clause.",
+        "level_note": "Trusted: Lean kernel; translate/files.py; the harness. Modelled not verified: binrw's primitive readers/writers, Cursor seek semantics for pad_after (seeking past the end succeeds and the next read fails — the model's drop-on-short-input), the allocator. The allocation clause is proved only in the form 'decoded element count <= input length'; how much binrw reserves while reading is measured by the harness (peak bytes <= 64*len + 64 KiB), not proved.",
+        "technique": "Lean 4 proof (induction over field lists, element vectors and object lists; extension lemma => prefix rejection; decide on regenerated layouts) + translator + differential correspondence with allocation-counting oracle",
+        "translators": ["files"],
+        "resolve": True,
+        "trusted": [
+            "translate/files.py: reads the #[binrw] structs Pth, Node, Limit, Smx, Object, ObjectPoint, Triangle, Argb, Rgb and core Point<T> (field order, types, pad_before/pad_after, magic, count/calc attributes); anything it cannot read becomes a translate: obligation",
+            "hand-modelled, tied by the correspondence run only: the container shape (which count governs which vector, counts read as i32 and rejected when negative, checkpoint indices as raw i32 words), binrw's count handling",
+            "floats are modelled as their 32-bit patterns (no float arithmetic is involved in reading or writing)",
+        ],
+        "rule": "pth <hex> / smx <hex> lines: the model prints the parsed structure, the unread byte count and the re-encoded bytes; the harness prints the same from insim_pth / insim_smx; distinct = distinct op text. Oracle per line: no panic, peak allocation bound, valid files accepted, truncations rejected, write->parse equal, canonical bytes identical; from_pathbuf on temporary files per generated file",
+        "assumptions": ["'allocating beyond what the input can justify' is judged as peak heap growth during the parse <= 64 x input length + 64 KiB", "a canonical SMX file has zero pad bytes and a track name padded with NULs only"],
     },
     "C10": {
         "level_text": "Lean theorems on the hand model of to_lossy_bytes / to_lossy_string over an abstract family of ten codecs with four recorded laws (decNil, ascii, decEnc, noCaret): caret-free text whose characters each exist in some codepage survives encode-then-decode for every length and every order of codepage switches, for every search order listing all ten codepages; ASCII passes through byte for byte; a character in no codepage behaves exactly like a literal '?' (neighbours unchanged); bytes after ^X are decoded with X's codec until the next marker and ^8 selects Latin-1 and is kept; both functions are total by construction. The marker -> encoding table, marker set, propagated marker, default and search order are regenerated from codepages.rs on every run and proved equal to LFS's table (L G C E T B J H S K = 1252 1253 1251 1250 1254 1257 932 950 936 949). Tied by correspondence: encoder driven with the real per-character encodability, decoder plan resolved through encoding_rs; oracle against the specification's encodings over every repertoire character, every byte after every marker, BOM-looking prefixes, random text and bytes.",
